@@ -220,6 +220,42 @@ theorem noCaptureExcept_spec {t : Patches α} {cl : ClassTable α} {nameOf : α 
   have := (List.all_eq_true.mp h) p.1 hmem
   simpa using this
 
+theorem capturedImportable_spec {t : Patches α} {cl : ClassTable α} {imp : List (α × Bool)}
+    (h : capturedImportable t cl imp = true) :
+    ∀ p ∈ t, isLiveWritten cl p.1 = true → (p.1, true) ∈ imp := by
+  intro p hp hw
+  have hmem : p.1 ∈ capturedKeys t cl := by
+    unfold capturedKeys
+    exact List.mem_filter.mpr ⟨List.mem_map.mpr ⟨p, hp, rfl⟩, hw⟩
+  have := (List.all_eq_true.mp h) p.1 hmem
+  simpa using this
+
+/-! ### the lookup after the chase -/
+
+/-- the three cases of `finish`, as a specification. -/
+theorem finish_spec (imp : α → Bool) (name r : α) :
+    (imp r = true → finish imp name r = .found r) ∧
+    (imp r = false → r ≠ name → imp name = true → finish imp name r = .found name) ∧
+    (imp r = false → (r = name ∨ imp name = false) → finish imp name r = .error r) := by
+  refine ⟨fun h => ?_, fun h hne hn => ?_, fun h hor => ?_⟩
+  · simp [finish, h]
+  · simp [finish, h, hne, hn]
+  · rcases hor with rfl | hn
+    · simp [finish, h]
+    · simp [finish, h, hn]
+
+/-- a key that can be imported under its own name while its target cannot: the lookup returns the
+key itself. -/
+theorem lookup_falls_back {t : Patches α} (imp : α → Bool) (fuel : Nat) (name r : α)
+    (hr : chase t fuel name = some r) (hlive : imp name = true) (ht : imp r = false) :
+    lookupWithPatches t imp fuel name = some (.found name) := by
+  have hne : r ≠ name := by
+    intro e
+    rw [e, hlive] at ht
+    exact absurd ht (by decide)
+  simp only [lookupWithPatches, hr, Option.map_some]
+  rw [(finish_spec imp name r).2.1 ht hne hlive]
+
 theorem blookup_some_mem {t : List (α × Bool)} {k : α} {v : Bool}
     (h : blookup t k = some v) : (k, v) ∈ t := by
   induction t with
